@@ -65,6 +65,9 @@ let events_of_token tok : ev list =
   | "sw" -> [ESwLocal (w, arg tok = 1)]
   | "rs" -> [ESwRemote w]
   | "SW" -> [ESwLocal (w, arg tok = 1); ESwRemote (other w)]
+  | "SU" -> (* name list with an unknown group at position arg/2: the local half skips it, the remote handler stops
+               at it (one group: switched remotely only when the unknown name comes after it) *)
+    ESwLocal (w, arg tok mod 2 = 1) :: (if arg tok / 2 >= 1 then [ESwRemote (other w)] else [])
   | _ -> failwith ("bad op " ^ tok)
 let id_of_token t : n list =
   if String.length t >= 2 && String.sub t 0 2 = "s:" then cps_of_token (String.sub t 2 (String.length t - 2))
@@ -152,6 +155,11 @@ let () =
               | "dn" | "de" | "up" ->
                 let d = String.sub tok 0 2 <> "up" in
                 if a < 100 then e1 (EIf (w, nat_of_int a, d)) else e2 (EIf (w, nat_of_int (a - 100), d))
+              | "SU" ->
+                let f = (a mod 2 = 1) and pos = a / 2 in
+                e1 (ESwLocal (w, f)); e2 (ESwLocal (w, f));
+                if pos >= 1 then e1 (ESwRemote (other w));
+                if pos >= 2 then e2 (ESwRemote (other w))
               | "S1" -> e1 (ESwLocal (w, a = 1)); e1 (ESwRemote (other w))
               | "S2" -> e2 (ESwLocal (w, a = 1)); e2 (ESwRemote (other w))
               | "tk" ->
